@@ -24,7 +24,7 @@ REQUIRED = ['pairs', 'tasks_compared', 'rw_rename', 'rw_wrap', 'rw_permute', 'rw
 ASSUMPTIONS = ['equality of parameter values is Python == on JSON-like values (1 is never rewritten to 1.0 or True)',
                'name mode is out of scope (the documentation itself says config names matter there)']
 BUDGET = {'quick': 75, 'thorough': 1500}
-KINDS = ['rename', 'wrap', 'permute', 'module', 'to_context', 'global_vars', 'objects']
+KINDS = ['rename', 'wrap', 'permute', 'module', 'to_context', 'global_vars', 'objects', 'share', 'share']
 
 
 def classify(ref, name, desc_list):
